@@ -119,6 +119,7 @@ DEFAULT_PROFILE = {
     "n_constraints": (0, 0),
     "integrals": True,
     "quad_states": 0.0,
+    "per_interval_matrix": True,
     "degrees": [1, 2, 3, 4, 5],
     "schemes": ["radau", "legendre"],
     "scales": False,
@@ -171,13 +172,15 @@ def gen_stage(rng, profile=None):
             variables.append({"name": "v%d" % i, "shape": pick_shape(rng, pr["allow_matrix"], 0.3), "grid": ""})
     if pr["per_interval"]:
         for i in range(rng.randint(0, 2)):
-            shp = pick_shape(rng, False, 0.3)   # per-interval symbols: column vectors (as in rockit's examples)
+            # per-interval symbols: mostly column vectors (as in rockit's examples), sometimes rows / matrices
+            shp = rng.choice([[2, 2], [1, 2]]) if (pr["allow_matrix"] and pr["per_interval_matrix"] and rng.random() < 0.15) else pick_shape(rng, False, 0.3)
             il = rng.random() < 0.4
             ncol = shp[1] * (N + (1 if il else 0))
             params.append({"name": "pc%d" % i, "shape": shp, "grid": "control", "include_last": il,
                            "value": [[rnd(rng, -1.5, 1.5) for _ in range(ncol)] for _ in range(shp[0])]})
         for i in range(rng.randint(0, 1)):
-            variables.append({"name": "vc%d" % i, "shape": pick_shape(rng, False, 0.3), "grid": "control",
+            variables.append({"name": "vc%d" % i, "shape": rng.choice([[2, 2], [1, 2]]) if (pr["allow_matrix"] and pr["per_interval_matrix"] and rng.random() < 0.15)
+                              else pick_shape(rng, False, 0.3), "grid": "control",
                               "include_last": rng.random() < 0.4})
     if pr["scales"]:
         for s in states + controls + algs + [v for v in variables if v.get("role") != "horizon"]:
